@@ -1116,6 +1116,10 @@ func ParseByteRange(byteRange []byte, contentLength int) (startPos, endPos int, 
 		if err != nil {
 			return 0, 0, err
 		}
+		if v == 0 || contentLength == 0 {
+			// RFC 7233: a suffix of length zero, or any suffix of an empty representation, is unsatisfiable
+			return 0, 0, fmt.Errorf("unsatisfiable suffix byte range in %q", byteRange)
+		}
 		startPos := contentLength - v
 		if startPos < 0 {
 			startPos = 0
